@@ -225,6 +225,20 @@ class ToCartesian(Angle):
         log_j += lj
         return x, x_prime, log_j
 
+    def x_prime_log_prior(self, x_prime):
+        """Compute the prior in the prime space.
+
+        Unless the mode is 'half', both signs of the angle are used and the
+        density is symmetric in y.
+        """
+        symmetric = self.mode != "half"
+        if self.has_prime_prior and self.prior == "sine" and symmetric:
+            x_prime = x_prime.copy()
+            x_prime[self.prime_parameters[1]] = np.abs(
+                x_prime[self.prime_parameters[1]]
+            )
+        return super().x_prime_log_prior(x_prime)
+
 
 class AnglePair(Reparameterisation):
     """Reparameterisation for a pair of angles and a radial component.
